@@ -19,9 +19,42 @@ CHECKS = {
  "C04": ("exploration", "dead-closure monitor: set of components that must be quiescent derived from the spec, compared with exact zeros / exact sleep current in the table",
          "Dead elements are planted at random depths (0 V source, phase-inactive source/converter/regulator/switch/mux, LinReg below drop-out, mux without live input); the transitive closure below them is derived from the spec and every row in it must be exactly zero in every phase; sleeping elements must draw exactly iis.",
          "Trusted: phase-behaviour model in slmon/model.py; exact comparison with 0.0.", "4/C04"),
+ "C05": ("exploration", "enumerated live/dead input patterns (2^k per layout) + row monitor: first-live-input oracle from the input rows, per-input rs law, current attribution, parent/rail-in/domain labels",
+         "For every generated mux layout all 2^k live/dead patterns are realised (0 V source, phase-inactive source, phase-inactive regulator/switch upstream) and the mux row, its input rows and its subtree are judged in every phase.",
+         "Trusted: an input is live iff its reported Vout is non-zero; reference laws of slmon/model.py.", "4/C05"),
  "C06": ("exploration", "phase-aware reference-law monitor + differential twins through the real code (phase slice vs solve(phase=p); substitution twin without phases; unconfigured vs phase-less)",
          "Per phase the rows are judged by the phase-aware reference laws; solve(phase=p) is compared cell by cell with the slice of solve(); a phase-free twin system with substituted load values / dead sources / sleep-current loads is solved at 1e-10 and compared; unknown phases must raise ValueError.",
          "Trusted: substitution twin construction; twin comparison tolerance derived from numpy's fixed atol=1e-8 (TwinTol).", "4/C06"),
+ "C07": ("exploration", "aggregate recomputation monitor over solve(energy=True) tables built in several construction orders (true-domain attribution from the spec, subsystem/total/average/energy re-addition)",
+         "Subsystem, total, average and energy rows are recomputed from the component rows and the spec (domain = source that actually powers the row, mux via its selected input) for the same structure built in up to 4 construction orders; exact re-addition tolerance 1e-12.",
+         "Trusted: mux selection derived from input rows; durations taken from the spec.", "4/C07"),
+ "C08": ("exploration", "differential monitor rail_rep() vs recomputation from solve() with identical arguments (membership by true supplier from the spec; warning tokens as sets)",
+         "rail_rep() of randomized railed systems (multi-source, mux between rails, phases, limits producing 0/1/several warnings per rail) is compared per phase and rail with sums recomputed from solve(); with no rails rail_rep()==solve().",
+         "Trusted: solve() table itself (judged by C01/C02/C05); a dead mux is booked under its first declared input as in solve().", "4/C08"),
+ "C09": ("exploration", "two-pass boundary workload (limits chosen at, one ulp around and far from the reported value) + warning oracle recomputed from the reported row; roll-up recomputation; limits() report",
+         "Each Warnings cell is recomputed from the reported quantities of its own row with the documented applicability table and defaults, including exact-boundary and one-ulp cases on both polarities and all phases; Subsystem/System total roll-up recomputed from true domains.",
+         "Trusted: applicability table and defaults transcribed from the docstrings; quantities are the reported cells.", "4/C09"),
+ "C10": ("exploration", "wrapped _Interp1d/_Interp2d._interp call log + probe-system recovery, judged by an independent grid oracle (node / grid line / cell corner range / nearest-edge projection)",
+         "Tables of all seven (kind, parameter) pairs are queried at ~40 points each (nodes, grid lines, cells, outside in 8 directions, both polarities) through Source-X-ILoad probe systems; both the value returned by the interpolator and the parameter recovered from the solved table are compared with the oracle; constant tables vs constants.",
+         "Trusted: own piecewise-linear oracle; 2-D single-column tables excluded (Qhull).", "4/C10"),
+ "C11": ("exploration", "round-robin catalogue of unphysical constructor arguments (must raise ValueError) + sign-twin differential through probe systems + physicality monitor on accepted components",
+         "Every catalogue entry (efficiency range, dropout, zero resistance, malformed/mismatched/non-monotonic tables, negative tabulated ig, malformed limits, non-numeric rs lists) is exercised per kind; negative-signed magnitudes must solve identically to positive ones; accepted components must show Loss>=0, eff<=100 %, no passive gain.",
+         "Trusted: catalogue derived from docstrings and the property text; params() display of raw negative constants is a diagnostic only.", "4/C11"),
+ "C12": ("exploration", "round-trip differential: S vs System.from_file(S.save()) compared on solve/rail_rep/params/phases per key, JSON idempotence, live-graph structure diff, version-gate fault cases",
+         "Full-feature random systems are saved, reloaded and compared report by report (1e-9 relative, keyed by component/phase), the second save must equal the first, and files stamped with newer/older versions must be refused/accepted.",
+         "Trusted: comparison keyed by names (row order may differ); limits not applicable to a kind are not persisted by design.", "4/C12"),
+ "C13": ("exploration", "differential TOML loader vs constructor (params/limits/solve of a probe system) + enumerated fault cases (missing mandatory key -> KeyError, wrong type -> ValueError)",
+         "For all 11 kinds random parameter subsets/forms are written to TOML and Kind.from_file is compared with the constructor call; every mandatory key is removed in turn and every key is given each wrong type in turn (round-robin, generic loader).",
+         "Trusted: toml 0.10.2 as the environment's parser; Rectifier.vdrop treated as always written.", "4/C13"),
+ "C14": ("exploration", "invariant walk over the live graph after every call of random colliding edit histories (names/rails from one pool of 10)",
+         "After every add_source/add_comp/change_comp/del_comp call, accepted or rejected, the rustworkx graph and registries are walked and the seven well-formedness invariants asserted; a history stops at the first violation so the introducing call is unambiguous.",
+         "Trusted: the invariant reads internal state directly (graph, name/rail registries); params() cross-check.", "4/C14"),
+ "C15": ("fault_enumeration", "twin-run oracle: two real Systems driven by the same history, the twin skipping exactly the rejected calls; all five observables compared after every step; enumerated rejection classes fired at every state",
+         "33 rejection classes of the property are fired repeatedly on evolving systems (warm-up prefix guarantees loads, rails, a second source and usually a mux); after every step tree/params/phases/save/solve of subject and twin must be identical and calls accepted by the subject must be accepted by the twin.",
+         "Trusted: observables serialised exactly; internal-only differences are diagnostics.", "4/C15"),
+ "C16": ("exploration", "detour histories ending at a target spec (extra add/delete, replace kind and back, late rename incl. mux inputs, subtree via intermediate element deleted with del_childs=False, lost-and-reapplied phase configs) vs freshly built system; configured-values oracle for params/limits/phases",
+         "The edited system and a system freshly built from the target spec are compared on every report per (component, phase) key, on the save() document up to sibling order and on live-graph structure; params()/limits()/phases() must show the configured values.",
+         "Trusted: documented semantics of each edit call guarantee the detour history ends at the target; 1e-9 relative for numeric cells.", "4/C16"),
  "C20": ("exploration", "runtime post-condition wrapper (exact rational closed form) + metamorphic re-invocation monitor",
          "Every call of trace_res/plane_res made by a randomized workload (12 decades of geometry) is checked by a wrapper against the closed form in Fraction arithmetic and against proportionality/affinity/symmetry relations; held on the executions observed, not a proof.",
          "Trusted: CPython float/Fraction arithmetic; tolerance 1e-12 of the un-cancelled magnitude.", "4/C20"),
